@@ -181,6 +181,8 @@ def run(ctx, b, drv):
     ll1ok = base.obligations(ctx, b, pend, ['LL1.v', 'LL1Inst.v', 'LL1Engine.v', 'EngineSim.v', 'Engine.v', 'Properties/C06.v'] +
                               ['gen/LL1_%s.v' % impl.vn(v) for v in streams.versions()])
     base.mismatches(ctx, pend, streams.run_plans(ctx, drv), None)
+    # sentences given as TEXT (through the tokenizer): the model pipeline and the implementation must agree, strict and recovering
+    base.mismatches(ctx, pend, streams.run_parse(ctx, base.scale(ctx, 500), drv, stream='c06-text', kinds=['semantic', 'valid', 'fstrings', 'derived']), None)
     per = base.scale(ctx, 60) if ll1ok else base.scale(ctx, 3000)
     TY = ['STRING', 'NUMBER', 'NAME', 'ERRORTOKEN', 'NEWLINE', 'INDENT', 'DEDENT', 'ERROR_DEDENT', 'FSTRING_STRING', 'FSTRING_START',
           'FSTRING_END', 'OP', 'ENDMARKER']
